@@ -62,17 +62,23 @@ def job(x, i, ctl=None):
     log = os.path.join(d, "log")
     _rec(log, "s", i)
     try:
+        wait_ev = ctl.get("wait_ev")            # threading backend: an Event of the predecessor
         after = ctl.get("after")
-        if after is not None:
+        if wait_ev is not None:
+            wait_ev.wait(max(0.0, ctl["deadline"] - time.time()))
+        elif after is not None:                 # process backend: the predecessor's flag file
             flag = os.path.join(d, "d%d" % after)
-            poll = ctl.get("poll", 0.0003)
+            poll = ctl.get("poll", 0.0005)
             while not os.path.exists(flag) and time.time() < ctl["deadline"]:
                 time.sleep(poll)
         if ctl.get("delay"):
             time.sleep(ctl["delay"])
     finally:
         _rec(log, "e", i)
-        open(os.path.join(d, "d%d" % i), "w").close()
+        if ctl.get("done_ev") is not None:
+            ctl["done_ev"].set()
+        else:
+            open(os.path.join(d, "d%d" % i), "w").close()
     return g(x)
 
 
@@ -118,10 +124,18 @@ class Runner:
             for pos, j in enumerate(order):
                 after[j] = order[pos - 1] if pos > 0 else None
         jobs = []
+        evs = None
+        if after and backend == "threading":
+            import threading
+            evs = [threading.Event() for _ in range(n)]
         for i in range(n):
             ctl = {"dir": d, "deadline": deadline, "poll": 0.0005}
             if after:
-                ctl["after"] = after.get(i)
+                if evs is not None:
+                    ctl["done_ev"] = evs[i]
+                    ctl["wait_ev"] = evs[after[i]] if after.get(i) is not None else None
+                else:
+                    ctl["after"] = after.get(i)
                 if settle and after.get(i) is not None:
                     ctl["delay"] = settle
             else:
@@ -372,7 +386,8 @@ def run(ck: Check):
     # ---- binding B: generators
     exh = _gen(ck, "MC_ParallelRunner_exh.cfg" if thorough else "MC_ParallelRunner_exh4.cfg", workers=8)
     nsim = 1000 if thorough else 120
-    sim = _gen(ck, "MC_ParallelRunner_sim.cfg", simulate="num=%d" % nsim, depth=400, seed=ck.seed, workers=1)
+    # one long random behaviour = many runs back to back (about 100 steps per run)
+    sim = _gen(ck, "MC_ParallelRunner_sim.cfg", simulate="num=1", depth=100 * nsim, seed=ck.seed, workers=1)
     _t(ck, "generators done: %d exhaustive, %d simulated schedules with sleep ranks" % (len(exh), len(sim)))
 
     book = Book()
@@ -397,9 +412,9 @@ def run(ck: Check):
     if thorough:
         loky_ws = list(range(1, 17))
     else:
-        loky_ws = sorted({2, 16} | set(rng.sample(range(3, 16), 2)))
+        loky_ws = sorted({2, 16} | set(rng.sample(range(3, 16), 1)))
     dict_ws = {1, 2, 3, 4, 8, 16} if thorough else {w for w in loky_ws if w <= 4}
-    per_w = 20 if thorough else 6
+    per_w = 20 if thorough else 5
     for w in loky_ws:
         try:
             _warm("loky", w, w in dict_ws)
